@@ -279,3 +279,100 @@ Section Excl.
     specialize (IH S1 X Hwb Hnd' Hh'). destruct (a_visit_keys unit av hs excl eids ms keys S1) as [S2 r]. exact IH.
   Qed.
 End Excl.
+
+(* ------------------------------------------------------------------ *)
+(* change sets in joins (C16): the cells of a slot after a join, and what a change-set member hands out *)
+
+Section CsCells.
+  Variable unit : N -> bool.
+
+  Definition members_cs_eff (ms : list member) (k : N) (v : option Z) : option Z :=
+    fold_left (fun v m => m_cs_eff m k v) ms v.
+
+  Lemma a_visit_members_cscell_at av hs excl eids ms i : forall S k j,
+    cscell (fst (a_visit_members unit av hs excl eids ms i S)) k j =
+      if N.eq_dec i j then members_cs_eff ms k (cscell S k i) else cscell S k j.
+  Proof.
+    induction ms as [|m r IH]; intros S k j; cbn [a_visit_members members_cs_eff fold_left].
+    - cbn [fst]. destruct (N.eq_dec i j) as [<-|]; reflexivity.
+    - pose proof (a_mget_cscell unit av hs excl eids m i S k) as Q. destruct (a_mget unit av hs excl eids m i S) as [S1 x]. cbn [fst] in Q.
+      specialize (IH S1 k j). destruct (a_visit_members unit av hs excl eids r i S1) as [S2 xs]. cbn [fst] in *.
+      rewrite IH. destruct (N.eq_dec i j) as [<-|Hne].
+      + rewrite Q. destruct (N.eq_dec i i); [reflexivity|congruence].
+      + rewrite Q. destruct (N.eq_dec i j); [congruence|reflexivity].
+  Qed.
+
+  Theorem a_visit_keys_cscell av hs excl eids ms keys : forall S k j, NoDup keys ->
+    cscell (fst (a_visit_keys unit av hs excl eids ms keys S)) k j =
+      if in_dec N.eq_dec j keys then members_cs_eff ms k (cscell S k j) else cscell S k j.
+  Proof.
+    induction keys as [|i keys IH]; intros S k j Hnd; cbn [a_visit_keys].
+    - cbn [fst]. destruct (in_dec N.eq_dec j []) as [[]|]. reflexivity.
+    - inversion Hnd as [|? ? Hni Hnd']; subst.
+      pose proof (a_visit_members_cscell_at av hs excl eids ms i S k) as Q.
+      destruct (a_visit_members unit av hs excl eids ms i S) as [S1 xs]. cbn [fst] in Q.
+      specialize (IH S1 k j Hnd'). destruct (a_visit_keys unit av hs excl eids ms keys S1) as [S2 r]. cbn [fst] in *.
+      rewrite IH. destruct (in_dec N.eq_dec j (i :: keys)) as [Hin|Hnin]; destruct (in_dec N.eq_dec j keys) as [Hin'|Hnin'].
+      + assert (i <> j) as Hne by (intros ->; contradiction). rewrite (Q j). destruct (N.eq_dec i j); [congruence|reflexivity].
+      + destruct Hin as [<-|]; [|contradiction]. rewrite (Q i). destruct (N.eq_dec i i); [reflexivity|congruence].
+      + exfalso. apply Hnin. right. assumption.
+      + assert (i <> j) as Hne by (intros ->; apply Hnin; left; reflexivity).
+        rewrite (Q j). destruct (N.eq_dec i j); [congruence|reflexivity].
+  Qed.
+
+  Lemma no_cs_owner_no_effect ms k : forallb (fun m => negb (m_cs_owns m k)) ms = true -> forall v, members_cs_eff ms k v = v.
+  Proof.
+    induction ms as [|m r IH]; intros H v; cbn [members_cs_eff fold_left]; [reflexivity|].
+    cbn [forallb] in H. apply andb_true_iff in H. destruct H as [H1 H2]. apply negb_true_iff in H1.
+    rewrite (not_cs_owner_no_effect m k v H1). apply IH. assumption.
+  Qed.
+
+  (* joined mutably: every visited amount is combined with the delta exactly once, the others are untouched;
+     joined by value: every visited amount is taken out; joined by reference: nothing changes *)
+  Theorem join_change_set_cells av hs excl eids pre post k mode d keys S j : NoDup keys ->
+    forallb (fun m => negb (m_cs_owns m k)) pre = true -> forallb (fun m => negb (m_cs_owns m k)) post = true ->
+    cscell (fst (a_visit_keys unit av hs excl eids (pre ++ MChange k mode d :: post) keys S)) k j =
+      if in_dec N.eq_dec j keys
+      then (if N.eqb mode 1 then option_map (fun a => amt_add a d) (cscell S k j) else if N.eqb mode 2 then None else cscell S k j)
+      else cscell S k j.
+  Proof.
+    intros Hnd H1 H2. rewrite (a_visit_keys_cscell av hs excl eids _ keys S k j Hnd).
+    destruct (in_dec N.eq_dec j keys); [|reflexivity].
+    unfold members_cs_eff. rewrite fold_left_app. fold (members_cs_eff pre k (cscell S k j)).
+    rewrite (no_cs_owner_no_effect pre k H1). cbn [fold_left m_cs_eff]. destruct (N.eq_dec k k); [|congruence].
+    apply (no_cs_owner_no_effect post k H2).
+  Qed.
+
+  (* what a change-set member hands out: the amount accumulated for that index when the join started *)
+  Lemma a_mget_amount av hs excl eids k mode d i S :
+    snd (a_mget unit av hs excl eids (MChange k mode d) i S) = JAmt (match cscell S k i with Some a => a | None => 0%Z end).
+  Proof. cbn [a_mget]. unfold cscell. destruct (NM.find i (as_cs S k)); reflexivity. Qed.
+
+  Theorem join_pairs_each_accumulated_amount_once av hs excl eids pre post k mode d keys : forall S, NoDup keys ->
+    forallb (fun m => negb (m_cs_owns m k)) pre = true ->
+    forall j xs, In (j, xs) (snd (a_visit_keys unit av hs excl eids (pre ++ MChange k mode d :: post) keys S)) ->
+    nth_error xs (length pre) = Some (JAmt (match cscell S k j with Some a => a | None => 0%Z end)).
+  Proof.
+    induction keys as [|i keys IH]; intros S Hnd Hpre j xs Hin; cbn [a_visit_keys] in Hin; [destruct Hin|].
+    inversion Hnd as [|? ? Hni Hnd']; subst.
+    assert (nth_error (snd (a_visit_members unit av hs excl eids (pre ++ MChange k mode d :: post) i S)) (length pre) =
+            Some (JAmt (match cscell S k i with Some a => a | None => 0%Z end))) as It.
+    { rewrite a_visit_members_app. cbn [snd]. rewrite nth_error_app2 by (rewrite a_visit_members_len; lia).
+      rewrite a_visit_members_len, Nat.sub_diag.
+      pose proof (a_visit_members_cscell_at av hs excl eids pre i S k i) as Q.
+      destruct (a_visit_members unit av hs excl eids pre i S) as [S1 ys]. cbn [fst] in *. cbn [a_visit_members].
+      pose proof (a_mget_amount av hs excl eids k mode d i S1) as R.
+      destruct (a_mget unit av hs excl eids (MChange k mode d) i S1) as [S2 x]. cbn [snd] in R. subst x.
+      destruct (a_visit_members unit av hs excl eids post i S2) as [S3 zs]. cbn [snd nth_error].
+      rewrite Q. destruct (N.eq_dec i i); [|congruence]. rewrite (no_cs_owner_no_effect pre k Hpre). reflexivity. }
+    pose proof (a_visit_members_cscell_at av hs excl eids (pre ++ MChange k mode d :: post) i S k) as Q.
+    destruct (a_visit_members unit av hs excl eids (pre ++ MChange k mode d :: post) i S) as [S1 ys]. cbn [fst snd] in *.
+    pose proof (a_visit_keys_indices unit av hs excl eids (pre ++ MChange k mode d :: post) keys S1) as Ix.
+    specialize (IH S1 Hnd' Hpre j xs).
+    destruct (a_visit_keys unit av hs excl eids (pre ++ MChange k mode d :: post) keys S1) as [S2 r]. cbn [snd] in *.
+    destruct Hin as [E|Hin].
+    - inversion E; subst. exact It.
+    - rewrite (IH Hin). assert (In j keys) as Hj by (rewrite <- Ix; apply (in_map fst _ _ Hin)).
+      rewrite (Q j). destruct (N.eq_dec i j); [subst; contradiction | reflexivity].
+  Qed.
+End CsCells.
